@@ -151,16 +151,53 @@ def go_build(name, faketime=False):
     return out, ""
 
 
-def regen_consts():
-    """Regenerates coq/gen/Consts.v from /repo. Returns error text ('' = ok)."""
-    binp, err = go_build("dumpconsts")
-    if not binp:
-        return "dumpconsts does not build against /repo (hooks on):\n" + err
-    rc, txt = sh([binp], timeout=120)
+def _dump_one(path):
+    """Builds and runs a dumpconsts binary made of main.go + one consts_<id>.go. Returns (id, text, err)."""
+    cid = os.path.basename(path)[len("consts_"):-3]
+    out = os.path.join(BIN, "dumpconsts_" + cid)
+    cmd = ["go", "build", "-tags", "verif", "-o", out, "./cmd/dumpconsts/main.go", "./cmd/dumpconsts/" + os.path.basename(path)]
+    rc, txt = sh(cmd, cwd=HARNESS, env=GOENV, timeout=900)
+    if rc != 0 and "no such file or directory" in txt and "could not import" in txt:
+        rc, txt = sh(cmd, cwd=HARNESS, env=GOENV, timeout=900)     # transient build-cache hiccup: one retry
     if rc != 0:
-        return "dumpconsts failed:\n" + txt
-    write_if_changed(os.path.join(COQ, "gen", "Consts.v"), txt)
-    return ""
+        return cid, "", "consts_%s.go does not build against /repo (hooks on):\n%s" % (cid, txt[-1500:])
+    rc, txt = sh([out], timeout=300)
+    if rc != 0:
+        return cid, "", "dumpconsts for %s failed (exit %s):\n%s" % (cid, rc, txt[-1500:])
+    return cid, txt, ""
+
+
+def regen_consts(pid=None):
+    """Regenerates coq/gen/Consts.v from /repo: one small binary per harness/cmd/dumpconsts/consts_<id>.go, so that a
+    property whose hooks no longer build (or whose behavioural probes crash on the current tree) loses only ITS constants;
+    the Coq files that need them then fail to compile, and only the properties depending on them are affected.
+    Returns (error text for this property's own constants or '', notes about other properties' constants)."""
+    from concurrent.futures import ThreadPoolExecutor
+    os.makedirs(BIN, exist_ok=True)
+    try:
+        write_if_changed(os.path.join(HARNESS, "go.sum"), open(os.path.join(REPO, "go.sum")).read())
+    except OSError:
+        pass
+    files = sorted(glob.glob(os.path.join(HARNESS, "cmd", "dumpconsts", "consts_*.go")))
+    with ThreadPoolExecutor(max_workers=8) as ex:
+        results = list(ex.map(_dump_one, files))
+    defs, lists, own_err, notes = {}, {}, "", []
+    for cid, txt, err in results:
+        if err:
+            if pid and cid.lower() == pid.lower():
+                own_err = err
+            else:
+                notes.append(err[:600])
+            continue
+        for line in txt.splitlines():
+            m = re.match(r"Definition (\S+) : (Z|list Z) := (.*)\.$", line)
+            if m:
+                (lists if m.group(2) == "list Z" else defs)[m.group(1)] = line
+    lines = ["(* GENERATED by harness/cmd/dumpconsts from /repo on every run. Do not edit. *)",
+             "From Coq Require Import ZArith List.", "Import ListNotations.", "Open Scope Z_scope."]
+    lines += [defs[k] for k in sorted(defs)] + [lists[k] for k in sorted(lists)]
+    write_if_changed(os.path.join(COQ, "gen", "Consts.v"), "\n".join(lines) + "\n")
+    return own_err, notes
 
 
 def coq_project():
@@ -380,7 +417,7 @@ def run_check(pid, tier, seed):
 
     chk = None
     with Lock("coq"):
-        err = regen_consts()
+        err, const_notes = regen_consts(pid)
         if err:
             problems.append(dict(kind="consts", what=err))
         props = check_props(pid)
@@ -466,7 +503,7 @@ def run_check(pid, tier, seed):
                       distribution=r.report.get("distribution", {}), notes=r.report.get("notes", {}), error=r.error[:500]) for r in results],
         oracle_failures=len(failures), known_findings_seen=sorted(seen_known),
         coqchk=chk if chk else "not run in this tier (thorough only: coqchk -silent -o -Q . M M.props.%s)" % pid,
-        lint_problems=lint_problems,
+        lint_problems=lint_problems, consts_notes=const_notes,
     )
     evidence = dict(property_id=pid, tier=tier, seed=seed, level="proof", coverage=coverage,
                     assumptions=getattr(mod, "ASSUMPTIONS", []), wall_s=round(time.time() - ctx.t0, 2),
@@ -495,9 +532,9 @@ def setup():
         print("lint problems:\n  " + "\n  ".join(lp))
         return 1
     with Lock("coq"):
-        err = regen_consts()
-        if err:
-            print(err)
+        err, notes = regen_consts()
+        if err or notes:
+            print(err, "\n".join(notes))
             return 1
         rc, out = coq_make([], timeout=3000)
         if rc != 0:
